@@ -18,6 +18,7 @@
 import LispModel.Proofs.EvalErase
 import LispModel.Proofs.Layout
 import LispModel.Proofs.Positions
+import LispModel.Proofs.LayoutFull
 import LispModel.Util
 namespace LispModel.Props.C19
 open LispModel LispModel.Scan
@@ -183,6 +184,80 @@ example : (match tokenize (bytes% "(def a 1) ; one\r\n\n  (f a);end") with
     (match tokenize (bytes% "(def a 1) (f a)") with
      | .ok ts => some (ts.map (fun (t : Token) => (t.kind, t.text))) | .error _ _ => none) ∧
     (match tokenize (bytes% "(def a 1) (f a)") with | .ok ts => ts.length | .error _ _ => 0) = 9 := by decide
+
+/-! ### layout: the full statements (Proofs/LayoutFull.lean)
+
+  `Steps s ts s'`: the token loop of `reader.tokenize` goes from scanner state `s` to `s'` recording the tokens
+  `ts` (none with an error); `start runes`: the state after `Peek` (first rune read, BOM skipped);
+  `hdCh x` / `x.tail`: look-ahead and unread runes right after the first rune of `x` has been read.
+  So `Steps (start (pre ++ x)) ts fin` with `fin.1 = hdCh x`, `fin.2.1 = x.tail` says: **`pre` ends where a
+  token ends** (or is empty) — the point between `pre` and `x` is a point between two tokens, before the
+  first or after the last token. -/
+
+open LispModel.Proofs.LayoutFull
+
+/-- `tokens_layout_invariant_statement` above quantifies over every split `pre ++ g ++ post` and is false as it
+    stands: white space INSIDE a string literal is part of the token (`"a "` vs `"a  "`). -/
+theorem tokens_layout_invariant_statement_is_false : ¬ tokens_layout_invariant_statement := by
+  intro h
+  obtain ⟨pre, g, g', post, hg, hg', hne, hne', toks, toks', hA, hB, hneq⟩ := gap_inside_string_counterexample
+  exact hneq (h pre g g' post hg hg' hne hne' toks toks' hA hB)
+
+/-- kinds and texts do not depend on the position bookkeeping: two `Scan`s from states that differ only in
+    `line` / `column` / `lastLineLen` / `lastCharLen` / `offset` yield the same token (kind and text), the same
+    look-ahead and unread runes, and the same error count (a relational induction over every scanning
+    function, `scanNumber` included) -/
+theorem kinds_texts_independent_of_bookkeeping (f : Nat) (rest : List Rune) (ch : Int) (p q : PState)
+    (he : p.errs = q.errs) :
+    (scan f rest ch p).1 = (scan f rest ch q).1 ∧ (scan f rest ch p).2.1 = (scan f rest ch q).2.1 ∧
+    (scan f rest ch p).2.2.1 = (scan f rest ch q).2.2.1 ∧
+    (scan f rest ch p).2.2.2.errs = (scan f rest ch q).2.2.2.errs :=
+  scan_bookkeeping_independent f rest ch p q he
+
+/-- **`tokens_layout_invariant`, the full statement**: in a text `pre ++ g ++ post` where `g` is a gap (white
+    space and complete comments; possibly empty) standing at a point between two tokens, before the first or
+    after the last token, replacing `g` by any non-empty gap `g'` does not change the list of (kind, text) of
+    the tokens.  (`g = []`: a gap is INSERTED; the side condition on the byte-order mark only matters for
+    `pre = []`: a BOM is skipped only as the very first rune of a text.) -/
+theorem tokens_layout_invariant (pre g g' post : List Rune) (hg : Gap g) (hg' : Gap g') (hne' : g' ≠ [])
+    (hbom : pre ≠ [] ∨ hdCh (g ++ post) ≠ 0xFEFF) {tsPre : List Token} {fin : St}
+    (hpoint : Steps (start (pre ++ g ++ post)) tsPre fin) (hf1 : fin.1 = hdCh (g ++ post))
+    (hf2 : fin.2.1 = (g ++ post).tail) {toks toks' : List Token}
+    (h : tokenizeRunes (pre ++ g ++ post) = .ok toks) (h' : tokenizeRunes (pre ++ g' ++ post) = .ok toks') :
+    toks.map (fun t => (t.kind, t.text)) = toks'.map (fun t => (t.kind, t.text)) := by
+  rw [List.append_assoc] at hpoint h h'
+  exact layout_kinds_texts pre g g' post hg hg' hne' hbom hpoint hf1 hf2 h h'
+
+/-- a gap in front of the text: no hypothesis needed -/
+theorem tokens_layout_invariant_before_first_token (g g' post : List Rune) (hg : Gap g) (hg' : Gap g')
+    (hne : g ≠ []) (hne' : g' ≠ []) {toks toks' : List Token}
+    (h : tokenizeRunes (g ++ post) = .ok toks) (h' : tokenizeRunes (g' ++ post) = .ok toks') :
+    toks.map (fun t => (t.kind, t.text)) = toks'.map (fun t => (t.kind, t.text)) :=
+  allRel_map _ _ (fun a b (r : TokSh (Proofs.Layout.newlines g) (Proofs.Layout.newlines g') a b) => by rw [r.1, r.2.1])
+    (layout_leading_gap g g' post hg hg' hne hne' h h')
+
+/-- inserting a gap in front of a text that does not begin with a byte-order mark -/
+theorem inserting_a_gap_before_the_first_token (g' post : List Rune) (hg' : Gap g') (hne' : g' ≠ [])
+    (hbom : hdCh post ≠ 0xFEFF) {toks toks' : List Token}
+    (h : tokenizeRunes post = .ok toks) (h' : tokenizeRunes (g' ++ post) = .ok toks') :
+    toks.map (fun t => (t.kind, t.text)) = toks'.map (fun t => (t.kind, t.text)) := by
+  have H : Steps (start ([] ++ ([] ++ post))) [] (atSt post {}) := by
+    rw [List.nil_append, List.nil_append, start_atSt _ hbom]; exact Steps.refl _
+  exact layout_kinds_texts [] [] g' post Gap.nil hg' hne' (Or.inr hbom) H rfl rfl h h'
+
+/-- non-vacuity of the token-boundary hypothesis: in `(a b)` the point behind `(a` is a point between two
+    tokens (two steps of the token loop lead to the state whose look-ahead is the space) … -/
+example : ∃ ts fin, Steps (start ([⟨40, 1, false⟩, ⟨97, 1, false⟩] ++ [⟨32, 1, false⟩] ++ [⟨98, 1, false⟩, ⟨41, 1, false⟩])) ts fin ∧
+    fin.1 = hdCh ([⟨32, 1, false⟩] ++ [⟨98, 1, false⟩, ⟨41, 1, false⟩]) ∧
+    fin.2.1 = ([⟨32, 1, false⟩] ++ [⟨98, 1, false⟩, ⟨41, 1, false⟩] : List Rune).tail :=
+  ⟨_, _, Steps.step (s := start _) rfl rfl (Steps.step rfl rfl (Steps.refl _)), rfl, rfl⟩
+
+/-- … and in `(ab)` the point between `(` and `ab` is one too (a gap may be inserted there), while the point
+    inside `ab` is not: no state of the token loop has the look-ahead `b` -/
+example : ∃ ts fin, Steps (start ([⟨40, 1, false⟩] ++ [] ++ [⟨97, 1, false⟩, ⟨98, 1, false⟩, ⟨41, 1, false⟩])) ts fin ∧
+    fin.1 = hdCh ([⟨97, 1, false⟩, ⟨98, 1, false⟩, ⟨41, 1, false⟩]) ∧
+    fin.2.1 = ([⟨97, 1, false⟩, ⟨98, 1, false⟩, ⟨41, 1, false⟩] : List Rune).tail :=
+  ⟨_, _, Steps.step (s := start _) rfl rfl (Steps.refl _), rfl, rfl⟩
 
 /-! ### the `load-file` wrapper `(do <src> SEP nil)` -/
 
